@@ -13,7 +13,7 @@ CLAUSES = {
     "C04": {"abs"},
     "C05": {"lam", "dbl"},
     "C06": {"tree", "ref", "searched"},
-    "C07": {"depth", "prefix", "searched"},
+    "C07": {"depth", "prefix", "searched", "ret"},       # ret: the scan raised or hung where the machine terminates
     "C08": {"sub"},
 }
 INV_OF = {
@@ -129,7 +129,7 @@ def _record_shipped(path: str, tier: str, prop: str, res: Result, early=None) ->
             if data in stateful:
                 k = 2 + stateful.index(data) % 3
             late = False
-            tr = rec.scan(data, k, lo=(prop == "C07"), subs=(prop == "C08"), lo_first=(i % 2 == 1 or data in stateful), defer_subs=late)
+            tr = rec.scan(data, k, lo=(prop == "C07"), subs=(prop == "C08"), lo_first=(i % 2 == 1 or data in stateful), defer_subs=late, prepared=(i % 5 == 4))
             tr["origin"] = "shipped"
             tr["registry"] = "default" if rec is full else "analyzers"
             if late:
